@@ -9,8 +9,11 @@
      affine_re / affine_im / quadratic_re            the response is affine (holomorphic) / of degree 2 along the perturbed entry
      resp_pres blk j                                 the sub-network does not write the state of Signal j
      direct_sig blk j                                Signal j is (directly) an input or output of a module of blk
-     out_sig blk outps s j                           Signal j is an output of interest that has a value when the
+     start_store blk inps s                          the store after blk.reset(); [s.reset() for s in inps]
+     out_sig blk inps outps s j                      Signal j is an output of interest that has a value when the
                                                      analytical pass starts (a None output is skipped with a warning)
+     se_free inps s s'                               s and s' are equal except for the sensitivity held by Signals that
+                                                     are inputs of interest and keep no allocation
      clean o                                         o is None or an all-zero value *)
 From Coq Require Import ZArith QArith Qcanon List Bool.
 From Pymoto Require Import Base.Cmp Model.FD Proofs.FDP.
@@ -159,7 +162,7 @@ Print Assumptions C19_perturbation_window.
    EVERY output of interest that has a value — also one that is not a signal of any executed module (a tosig produced
    upstream of the selected sub-network) *)
 Theorem C19_no_sensitivity_left : forall c blk inps outps s res j,
-  finite_difference c false blk inps outps s = inr res -> direct_sig blk j \/ out_sig blk outps s j ->
+  finite_difference c false blk inps outps s = inr res -> direct_sig blk j \/ out_sig blk inps outps s j ->
   clean (se (getsig (f_store res) j)).
 Proof. exact fd_leaves_clean. Qed.
 Print Assumptions C19_no_sensitivity_left.
@@ -177,10 +180,40 @@ Theorem C19_network_no_sensitivity_left : forall c mods inps outps s res i1 i2 j
   find_first inps mods 0 = Some i1 -> find_last outps mods 0 None = Some i2 ->
   finite_difference c true mods inps outps s = inr res ->
   let blk := firstn (S i2 - i1) (skipn i1 mods) in
-  direct_sig blk j \/ out_sig blk outps (n_response (firstn i1 mods) s) j \/ clean (se (getsig s j)) ->
+  direct_sig blk j \/ out_sig blk inps outps (n_response (firstn i1 mods) s) j \/ clean (se (getsig s j)) ->
   clean (se (getsig (f_store res) j)).
 Proof. exact fd_network_leaves_clean. Qed.
 Print Assumptions C19_network_no_sensitivity_left.
+
+(* the inputs of interest (fixed finding F27). Whatever sensitivity the caller left on them — also on entries the executed
+   modules do not use or use only through slices — every input of interest is clean (a Signal: its whole sensitivity; a
+   slice: the entries it addresses) when blk.response() and the analytical pass start ... *)
+Theorem C19_inputs_start_clean : forall blk inps s si,
+  In si inps -> clean (get_sens si (start_store blk inps s)).
+Proof. exact start_store_inputs_clean. Qed.
+Print Assumptions C19_inputs_start_clean.
+
+(* ... stays clean over every iteration of the analytical pass (seed, backpropagate, blk.reset(), Sout.reset()), so that
+   what C19_analytical_pass records for it is the backpropagated sensitivity of the seed and nothing else ... *)
+Theorem C19_iteration_keeps_inputs_clean : forall blk so df s si,
+  clean (get_sens si s) ->
+  clean (get_sens si (reset_sig so (n_reset blk (n_sensitivity blk (set_sens so (Some df) s))))).
+Proof. exact iteration_inputs_clean. Qed.
+Print Assumptions C19_iteration_keeps_inputs_clean.
+
+(* ... and is clean after the call (Module or Network) *)
+Theorem C19_inputs_left_clean : forall c isnet mods inps outps s res si,
+  finite_difference c isnet mods inps outps s = inr res -> In si inps -> clean (get_sens si (f_store res)).
+Proof. exact fd_inputs_left_clean. Qed.
+Print Assumptions C19_inputs_left_clean.
+
+(* independence: the complete result — every tuple (analytical and numerical values), the final store, the seeds — is the
+   same for two stores that differ only in the sensitivity left on Signals that are inputs of interest (no kept allocation) *)
+Theorem C19_independent_of_input_sensitivities : forall c isnet mods inps outps s s',
+  se_free inps s s' ->
+  finite_difference c isnet mods inps outps s' = finite_difference c isnet mods inps outps s.
+Proof. exact fd_independent_of_input_sensitivities. Qed.
+Print Assumptions C19_independent_of_input_sensitivities.
 
 (* the perturbation phase does not touch any sensitivity at all *)
 Theorem C19_perturbation_keeps_sensitivities : forall c blk outps f0 df dxan inps iin s,
@@ -287,12 +320,33 @@ Proof. vm_compute. repeat split; reflexivity. Qed.
    module: it is an output of interest with a value *)
 Example C19_ex_upstream_hypotheses :
   find_first [R0 1] [up_mod1; up_mod2] 0 = Some 1%nat /\ find_last [R0 2; R0 3] [up_mod1; up_mod2] 0 None = Some 1%nat /\
-  out_sig [up_mod2] [R0 2; R0 3] (n_response [up_mod1] up_store) 2 /\
+  out_sig [up_mod2] [R0 1] [R0 2; R0 3] (n_response [up_mod1] up_store) 2 /\
   ~ direct_sig [up_mod2] 2.
 Proof.
   split; [reflexivity|split; [reflexivity|split]].
   - exists (R0 2). split; [left; reflexivity|]. split; [reflexivity|]. split; [reflexivity|]. vm_compute. discriminate.
   - intros (m & x & Hm & Hx & Hr & _). destruct Hm as [<-|[]]. cbn in Hx. destruct Hx as [<-|[<-|[]]]; discriminate.
+Qed.
+
+(* witness of the fixed finding F27: y = 2 * x[0:2], the input of interest is the base Signal x = [1, 2, 3], on which the
+   caller left the sensitivity [9, 9, 9]. The tuples are (2, 2), (2, 2), (0, 0) — no 9 anywhere —, only zeros are left on the base of the slice,
+   and the stores with and without the left-over are related by se_free (C19_independent_of_input_sensitivities) *)
+Definition sl_mod : module :=
+  poly_module [{| s_root := 0; s_slice := Some ([0; 1]%nat, [2%Z]) |}] [R0 1] (lin_spec [[r 2; r 0]; [r 0; r 2]]).
+Definition sl_store (left_over : option val) : store :=
+  [ {| st := Some (V [r 1; r 2; r 3] (KArr [3%Z]) false); se := left_over; keep := false |}; sig0 ].
+Definition sl_cfg : fdcfg :=
+  {| c_dx := Q2Qc (1 # 4); c_rel := false; c_keepzero := true; c_random := false; c_usedf := None; c_rand := [];
+     c_order := [[0; 1; 2]%nat] |}.
+Example C19_ex_left_over_input_sensitivity :
+  let x := finite_difference sl_cfg false [sl_mod] [R0 0] [R0 1] (sl_store (Some (V [r 9; r 9; r 9] (KArr [3%Z]) false))) in
+  Qll_eqb (reports_of x) [[1; 0; 1 # 4; 2; 2]; [2; 0; 1 # 4; 2; 2]; [3; 0; 1 # 4; 0; 0]] = true /\
+  sens_of x = [Some [0; 0; 0]; None] /\
+  se_free [R0 0] (sl_store None) (sl_store (Some (V [r 9; r 9; r 9] (KArr [3%Z]) false))).
+Proof.
+  split; [vm_compute; reflexivity|split; [vm_compute; reflexivity|]].
+  split; [reflexivity|]. intros [|[|j]]; [|left; reflexivity|left; reflexivity].
+  right. split; [split; reflexivity|]. split; [reflexivity|]. exists (R0 0). cbn. auto.
 Qed.
 
 (* non-vacuity of the hypotheses of C19_linear_exact / C19_restores_states / C19_no_sensitivity_left on this instance *)
